@@ -24,7 +24,7 @@ RULE = ('one case = one universe of 9 related lexicons x one selection S (1-3 le
         'at least one outsider was added that collides with an insider in identifiers or is an unselected extension of a member of S')
 ASSUMPTIONS = ['outsiders never include a declared-but-missing dependency of S (that would legitimately change the default expand set)',
                'translate() results are scoped by the target argument, not by S (checked in C10)']
-FLOORS = {'*': {'membership.checked': 2000, 'triple.compared': 40}}
+FLOORS = {'*': {'membership.checked': 2000, 'triple.compared': 40, 'search.checked': 2000}}
 N = {'quick': 90, 'thorough': 2500}
 SELECTIONS = [
     (['a1'], None), (['a1'], ''), (['a1', 'xa'], None), (['a1', 'b'], None), (['c'], None), (['c'], ''), (['c'], ['a1']),
@@ -99,6 +99,8 @@ def run_case(case, rec):
             universe.install(insiders, u, work, m)
             w = wnio.wordnet(S, exp_arg)
             raw1 = observe(w, rec, visit)
+            forms = _all_forms(u)
+            q1 = _searches(w, forms, visit, rec)
             model_exp = _model_expand(m, S, exp_arg)
             _vs_model(rec, m, S, model_exp, raw1, 'db1 (insiders only)')
             o1 = _mask(canon_real(copy.deepcopy(raw1)))
@@ -109,6 +111,11 @@ def run_case(case, rec):
             o2 = _mask(canon_real(copy.deepcopy(raw2)))
             rec.event('triple.compared')
             collide = _collides(u, sel_names, outsiders)
+            q2 = _searches(w, forms, visit, rec)
+            dq = diff(q1, q2)
+            if dq:
+                rec.violation('search-interference', f'S={S} expand={exp_arg}: looking up a form gives a different result after outsiders '
+                              f'{[universe.spec(u[n]) for n in outsiders]} were added: ' + fmt(dq))
             d = diff(o1, o2)
             if d:
                 _classify(rec, m, S, model_exp, raw2, d, 'adding outsiders ' + str([universe.spec(u[n]) for n in outsiders]))
@@ -129,6 +136,10 @@ def run_case(case, rec):
                     m.remove(sp)
             w = wnio.wordnet(S, exp_arg)
             o3 = _mask(canon_real(observe(w, rec, visit)))
+            dq = diff(q1, _searches(w, forms, visit, rec))
+            if dq:
+                rec.violation('search-interference-after-removal', f'S={S} expand={exp_arg}: looking up a form gives a different result '
+                              'after outsiders were added and removed again: ' + fmt(dq))
             d = diff(o1, o3)
             if d:
                 stripped = strip_ghost_tags(o3, m)
@@ -146,6 +157,42 @@ def run_case(case, rec):
     rec.done([case['seed'], S, exp_arg], nontrivial=collide,
              sample={'selection': S, 'expand': exp_arg, 'insiders': insiders, 'outsiders': outsiders,
                      'entities_checked': members['n']})
+
+
+def _all_forms(u):
+    """every written form of every lexicon of the universe (also those only outsiders have), plus case variants"""
+    out = []
+
+    def walk(x):
+        if isinstance(x, dict):
+            if isinstance(x.get('writtenForm'), str):
+                out.append(x['writtenForm'])
+            for v in x.values():
+                walk(v)
+        elif isinstance(x, list):
+            for v in x:
+                walk(v)
+    for lx in u.values():
+        walk(lx.get('entries', []))
+    out = list(dict.fromkeys(out))
+    return out + [f.upper() for f in out if f.upper() not in out][:20]
+
+
+def _searches(w, forms, visit, rec):
+    """form look-ups through the restricted Wordnet: results keyed by entity, every result checked for membership"""
+    res = {}
+    for f in forms:
+        for name in ('words', 'senses', 'synsets'):
+            got = getattr(w, name)(f)
+            keys = []
+            for x in got:
+                k = f'{x.lexicon().specifier()}::{x.id}'
+                visit(x, k, f'Wordnet.{name}(form)', False)
+                keys.append(k)
+            rec.event('search.checked')
+            if keys:
+                res[f'{name}({f!r})'] = keys
+    return res
 
 
 def _mask(o):
